@@ -516,8 +516,8 @@ func collect(ch chan *wmodel.ParserResponse) (err error, spans []*wmodel.TempoSa
 	return
 }
 
-// fp61: polynomial fingerprints of a byte string modulo two 61-bit primes (the same arithmetic runs inside Coq over N)
-const fpP1, fpP2 = uint64(2305843009213693951), uint64(2305843009213693921)
+// fp61: polynomial fingerprints of a byte string modulo two 53-bit numbers (the same arithmetic runs inside Coq on primitive 63-bit integers)
+const fpP1, fpP2 = uint64(9007199254740881), uint64(9007199254740847)
 
 func mulmod(a, b, m uint64) uint64 {
 	hi, lo := bits.Mul64(a, b)
